@@ -238,6 +238,11 @@ pub fn build(
                     }
                 }
 
+                // Base fields are referred to by name (vftable accessor, forwarded functions).
+                if is_base && ident.0 == "_" {
+                    anyhow::bail!("a `#[base]` field of type `{resolvee_path}` has no name");
+                }
+
                 // Push field
                 let Some(type_) = semantic
                     .type_registry
